@@ -418,6 +418,9 @@ class ConditionLike:
                                 f"types are: {list(DTYPE_LOOKUP.keys())!r}."
                             )
 
+                    if pre_proc_str not in ("dtype", "length"):
+                        # other attributes of the condition classes are not pre-processors
+                        raise AttributeError(pre_proc_str)
                     cls = getattr(cls, pre_proc_str)
 
                 except AttributeError:
@@ -449,7 +452,15 @@ class ConditionLike:
                     )
 
             try:
+                if cond_call_str.startswith("_") or not (
+                    hasattr(GeneralCallables, cond_call_str)
+                    or hasattr(MapCallables, cond_call_str)
+                ):
+                    # other attributes of the condition classes are not condition callables
+                    raise AttributeError(cond_call_str)
                 cond_method = getattr(cls, cond_call_str)
+                if not callable(cond_method):
+                    raise AttributeError(cond_call_str)
             except AttributeError:
                 msg = (
                     f'Condition callable "{cond_call_str}" is not known or not '
